@@ -79,7 +79,7 @@ PROPS["C20"] = {
 NOT_APPLICABLE = {}
 
 # verif-guarded hook commits in /repo (add-only)
-HOOK_COMMITS = ["fd0e965", "d11cf72", "46739fb", "981ad0e", "643526d", "e05858a", "edb0adb", "7d5379a", "42d08ad", "d63880c", "c52c40e", "cfdc2ec", "ee229a3", "82ee13c", "c8aaeb5", "daf1a1c", "2ce3bf7", "5773edf"]
+HOOK_COMMITS = ["fd0e965", "d11cf72", "46739fb", "981ad0e", "643526d", "e05858a", "edb0adb", "7d5379a", "42d08ad", "d63880c", "c52c40e", "cfdc2ec", "ee229a3", "82ee13c", "c8aaeb5", "daf1a1c", "2ce3bf7", "5773edf", "e263970"]
 
 PROPS["C09"] = {
     "modules": ["OxiaVerif.Props.C09", "OxiaVerif.Props.C09OnTree"],
@@ -169,15 +169,15 @@ PROPS["C16"] = {
 }
 PROPS["C17"] = {
     "modules": ["OxiaVerif.Props.C17"],
-    "facts": ["processWriteSingleBatchCommit", "notificationsTrimUpperBoundIsTrimOffsetPlusOne", "notificationsStartAtCommitOffset"],
+    "facts": ["processWriteSingleBatchCommit", "notificationsTrimUpperBoundIsTrimOffsetPlusOne", "notificationsStartAtCommitOffset", "notificationsClientResumesFromEstablishedPosition"],
     "trusted_base": [KERNEL, EXTRACT, CORR, DBTRUST],
     "assumptions": ["the leader's dispatch goroutine and the position of a new subscriber (commit offset, not head) are tied by a regenerated fact, not executed; the trimmer is run synchronously with an injected clock (its race with concurrent commits is covered only by the fact about the deleted key range)",
                     "keys are valid UTF-8 in the trimming programs: the trimmer decodes batches with the validating protobuf decoder and skips trimming forever once a batch holds another key (observation, not a loss)",
                     "delivery order/resumption across reconnects (readNotifications) relies on the order embedding of %016x offset keys: correspondence-checked, not proved",
                     "retention-time trimming (wall clock) and the leader's dispatch goroutines are not modelled"],
-    "rule": DBRULE + ", with subscribers (re)connecting at every offset at the end of each program. Oracle: the expected batch of every committed request is recomputed in Go from request + response (created/modified with resulting version id, deleted, range-deleted, last operation per key wins, internal keys filtered); each read must return exactly the batches with offset >= start, ascending. Non-trivial = a read returning at least two batches, one non-empty.",
+    "rule": DBRULE + ", with subscribers (re)connecting at every offset at the end of each program. Oracle: the expected batch of every committed request is recomputed in Go from request + response (created/modified with resulting version id, deleted, range-deleted, last operation per key wins, internal keys filtered); each read must return exactly the batches with offset >= start, ascending. Added: the client's notifications manager (oxia/notifications.go) over a one-shard notification server of the harness that answers like the leader's GetNotifications (dummy batch for a new subscriber, continuation after a start offset), with writes, broken streams and reconnections scripted; oracle: the subscriber is notified of every change committed after its subscription, once, in order. Non-trivial = a read returning at least two batches, one non-empty.",
     "level_text": "Machine-checked proof (Lean 4), for every sorted store and every request: a committed request with notifications enabled stores exactly one batch (its offset, its timestamp) under its own offset key in the same commit as the commit offset (sortedness of the store is preserved by every batch operation); a failed request stores nothing; internal keys never appear; one notification per key; a successful put is announced with its resulting version id as created/modified. Tied to db.go/notifications_tracker.go by differential runs including every stored batch.",
-    "level_note": "Trusted: Lean kernel; extractor rule (single commit); " + DBTRUST + ". Partial: ascending delivery and resumption are oracle-checked on the implementation.",
+    "level_note": "Trusted: Lean kernel; extractor rule (single commit); " + DBTRUST + ". Partial: ascending delivery and resumption are oracle-checked on the implementation (server: reads from every offset; client: scripted reconnections). Fixed D-53 (a subscriber that started on an empty shard lost the changes committed before its reconnection).",
     "technique": "Lean 4 proof (ordered-map lemmas, invariant preservation over batch operations) + regenerated fact + differential correspondence with recomputed-batch oracle",
     "design_ref": "DESIGN.md section 6 C17",
 }
